@@ -104,3 +104,42 @@ func Visible(ps []Pos) []Pos {
 	return out
 }
 
+
+// CleanOutput: after removing every ESC [ (digit|;)* m, the text contains no
+// C0 control other than newline, no DEL and no C1 control. (A lone ESC, or one
+// followed by anything other than a well-formed SGR sequence, is unclean.)
+func CleanOutput(s string) bool {
+	for i := 0; i < len(s); {
+		if s[i] == 0x1b {
+			if i+1 >= len(s) || s[i+1] != '[' {
+				return false
+			}
+			j := i + 2
+			for j < len(s) && (s[j] == ';' || (s[j] >= '0' && s[j] <= '9')) {
+				j++
+			}
+			if j >= len(s) || s[j] != 'm' {
+				return false
+			}
+			i = j + 1
+			continue
+		}
+		r, size := utf8.DecodeRuneInString(s[i:])
+		i += size
+		if !All(Any(r >= 0x20, r == '\n'), Any(r < 0x7f, r > 0x9f)) {
+			return false
+		}
+	}
+	return true
+}
+
+// AnyText: n arbitrary Unicode scalars (controls included) except NUL.
+func AnyText(name string, n int) string {
+	s := ""
+	for i := 0; i < n; i++ {
+		r := Rune(name)
+		Assume(r != 0)
+		s += string(r)
+	}
+	return s
+}
